@@ -21,6 +21,11 @@ R1(b) entry points that edit a buffer whose text stays live (yyunput, yyinput, t
      yy_get_next_buffer / yyrestart passes a take.
 R1(c) functions that discard the text (yypop_buffer_state, yy_flush_buffer, yyrestart) take on every path to the
      return except on the edges that say "no current buffer" / "not the current buffer".
+     a6  inside the actions a restore writes through the pointer local as the take left it (no assignment of the local
+         between the dispatch of the action switch and the restore).
+R4   after yy_get_next_buffer() every arm of yylex / yyinput that does not mean end-of-file re-positions yy_c_buf_p or calls
+     yyrestart() before the function returns or recurses.
+R5   yymore: every pointer local the matcher derives from yytext_ptr adds yy_more_len.
 R2   push-back is bounded: in yyunput the store of the pushed-back character is dominated by the low-water test
      `yy_cp < yy_ch_buf + 2`; the below edge of the test shifts the text and reaches the store only through a second
      test whose below edge is fatal.
@@ -73,7 +78,7 @@ def r1a(ctx, sc, lex):
     r = cfg.reach(first_ins(eob), avoid=R, include_start=True)
     bad = [x for x in sc.calls(lex, 'GNB', 'GPS', 'NUL') if x in r]
     if bad:
-        rep.fail('C08.R1', k0 + 'restore-in-end-of-buffer-arm', where(bad[0]), 'the end-of-buffer arm calls %s without having put the hold character back: the text is moved / re-scanned with a NUL in it [variant %s]' % (bad[0].callee, v.name),
+        rep.fail('C08.R1', k0 + 'restore-in-end-of-buffer-arm', where(bad[0]), 'the end-of-buffer arm calls %s without having put the hold character back: the text is moved / re-scanned with a NUL in it [variant %s]' % (norm(sc.callee(bad[0])), v.name),
                  witness=witness(cfg, first_ins(eob), bad[0], avoid=R, include_start=True), variant=v.describe())
     else:
         rep.ok('C08.R1', '%s yylex a2: end-of-buffer arm@%s restores before yy_get_next_buffer/yy_get_previous_state/yy_try_NUL_trans' % (v.name, first_ins(eob).line))
@@ -109,6 +114,28 @@ def r1a(ctx, sc, lex):
                      witness=witness(cfg, t, bad[0], avoid=R), variant=v.describe())
         else:
             rep.ok('C08.R1', '%s yylex a5: take@%s is followed by a restore before any other take' % (v.name, t.line))
+    # a6: inside the actions a restore writes through the pointer local as it was when the take terminated yytext:
+    #     no assignment of that local between the dispatch of the action switch and the restore (unless a new take follows it)
+    av = T + [h0]
+    from_sw = cfg.reach(sw, avoid=av)
+    for x in a.restores():
+        if not cfg.dominates(sw.blk, x.blk) or x.blk is sw.blk: continue
+        d = lex.def_of(x.ops[1])
+        L = None
+        if d is not None and d.op == 'load':
+            l = a.loc(d.ops[0])
+            if l[0] == 'local': L = l[1]
+        if L is None: continue
+        n += 1
+        bad = None
+        for st in a.local_stores(L):
+            if st in from_sw and x in cfg.reach(st, avoid=av): bad = st; break
+        if bad is not None:
+            rep.fail('C08.R1', k0 + 'restore-through-moved-pointer#%s' % _site(sc, lex, x, sw, eob, hdr), where(x),
+                     'the restore at line %s writes yy_hold_char through the local %s after it was re-assigned at line %s: the NUL that terminates yytext stays in the buffer and the hold character lands on another byte [variant %s]' % (x.line, L, bad.line, v.name),
+                     witness=witness(cfg, bad, x, avoid=av), variant=v.describe())
+        else:
+            rep.ok('C08.R1', '%s yylex a6: restore@%s goes through %s as the take left it' % (v.name, x.line, L))
     return n
 
 def _ordinal(fn, x, xs):
@@ -117,7 +144,7 @@ def _ordinal(fn, x, xs):
 def _site(sc, lex, x, sw, eob, hdr):
     """stable name of a restore/take site in yylex: where it sits relative to the anchors (no line numbers)"""
     cfg = sc.prog.cfg(lex)
-    if x.op in ('call', 'invoke'): return 'call-' + norm(x.callee)
+    if x.op in ('call', 'invoke'): return 'call-' + norm(sc.callee(x) or '?')
     if cfg.dominates(eob, x.blk): return 'end-of-buffer-arm'
     if not cfg.dominates(sw.blk, x.blk) or x.blk is sw.blk: return 'before-action-switch'
     return 'in-an-action'
@@ -170,9 +197,7 @@ def r1b(ctx, sc):
 
 DISCARDERS = (('POP', 'yypop_buffer_state'), ('FLUSH', 'yy_flush_buffer'), ('RESTART', 'yyrestart'))
 # exception table for R1(c): one symbol per entry (matched on the end of the mangled name, the class name carries the prefix)
-R1C_EXCEPT = {
-    '9yyrestartEPSi': 'C++ overload yyrestart(std::istream*): only delegates to yyrestart(std::istream&) through the vtable (an indirect call the IR model does not resolve); the callee is checked',
-}
+R1C_EXCEPT = {}       # (the C++ overload yyrestart(std::istream*) used to be here; virtual calls are now resolved through the vtable)
 
 def about_current_buffer(sc, fn, br):
     """the branch condition inspects the current buffer (yy_buffer_stack / yy_current_buffer())"""
@@ -277,13 +302,83 @@ def r2(ctx, sc):
             rep.ok('C08.R2', '%s %s: push-back store@%s dominated by low-water test@%s; below edge shifts and re-tests (%d tests), overflow is fatal' % (v.name, fn.name, s0.line, lwb[0].line, len(LW)))
     return n
 
+# ---------------------------------------------------------------- R4
+
+def r4(ctx, sc, lex):
+    """after yy_get_next_buffer() has moved the text, the arms that do not mean end-of-file must either re-position
+    yy_c_buf_p (go on scanning) or reset the buffer with yyrestart() (yyinput's LAST_MATCH arm: the buffer is in state
+    EOF_PENDING) before the function returns or recurses; otherwise the next scan finds yy_c_buf_p past the sentinels."""
+    rep = ctx.rep; v = sc.v; n = 0
+    gnb = sc.fn('GNB')
+    consts, eof = c03.eof_code(sc, lex, gnb)
+    if len(eof) != 1: rep.broken('%s: end-of-file code of yy_get_next_buffer not identified' % v.name)
+    for role in ('LEX', 'INPUT'):
+        for fn in ([lex] if role == 'LEX' else sc.fns(role)):
+            a = sc.fa(fn); cfg = sc.prog.cfg(fn)
+            for call in sc.calls(fn, 'GNB'):
+                sw, arms = c03.gnb_arms(sc, fn, call, eof)
+                if sw is None: rep.broken('%s: the result of yy_get_next_buffer() in %s does not feed a switch' % (v.name, fn.name))
+                kills = a.cell_stores('CBUFP') + sc.calls(fn, 'RESTART')
+                stops = [x for x in fn.ins if x.op == 'ret'] + [c for c in sc.calls(fn, 'INPUT', 'LEX')]
+                for c in sorted(consts):
+                    if c in eof or c not in arms: continue
+                    n += 1
+                    r = cfg.reach(first_ins(arms[c]), avoid=kills, include_start=True)
+                    bad = [x for x in stops if x in r]
+                    key = 'C08.R4:%s:%s:refill-arm-%d:resume-or-reset' % (skel(v), norm(fn.name), c)
+                    if bad:
+                        rep.fail('C08.R4', key, where(first_ins(arms[c])), 'after yy_get_next_buffer() returned %d, %s can %s without re-positioning yy_c_buf_p or resetting the buffer with yyrestart(): the next scan starts past the end-of-buffer sentinels [variant %s]' % (
+                            c, norm(fn.name), 'return' if bad[0].op == 'ret' else 'call itself', v.name),
+                            witness=witness(cfg, first_ins(arms[c]), bad[0], avoid=kills, include_start=True), variant=v.describe())
+                    else:
+                        rep.ok('C08.R4', '%s %s arm %d of switch(yy_get_next_buffer())@%s re-positions yy_c_buf_p or calls yyrestart before leaving' % (v.name, fn.name, c, sw.line))
+    return n
+
+# ---------------------------------------------------------------- R5
+
+def r5(ctx, sc, lex):
+    """yymore (pointer yytext): yytext_ptr points at the start of yytext including the text kept by yymore(); the run
+    the DFA is working on starts yy_more_len bytes later.  So wherever the matcher (yylex, yy_get_previous_state)
+    derives a pointer local from yytext_ptr it adds yy_more_len (YY_MORE_ADJ)."""
+    rep = ctx.rep; v = sc.v; n = 0
+    la = sc.fa(lex)
+    if not la.cell_loads('MORELEN'):
+        c03.vac(rep, v, 'C08.R5: the scanner has no yy_more_len (no yymore(), or %array where yy_more_offset is used)')
+        return 0
+    cfg = sc.prog.cfg(lex)
+    for fn, nm in ((lex, 'yylex'), (sc.fn('GPS'), 'yy_get_previous_state')):
+        if fn is None: continue
+        a = sc.fa(fn)
+        arms = []
+        if fn is lex:
+            for call in sc.calls(lex, 'GNB'):
+                sw, am = c03.gnb_arms(sc, lex, call, None)
+                arms += list(am.items())
+        for L in sorted(a.locals):
+            for st in a.local_stores(L):
+                sl = flow.value_slice(fn, st.ops[0])
+                roles = {cell_role(a.loc(d.ops[0])) for d in sl if d.op == 'load'}
+                if 'TEXT' not in roles: continue
+                n += 1
+                site = 'scan-start'
+                if fn is lex:
+                    site = 'end-of-buffer-arm'
+                    for c, blk in arms:
+                        if cfg.dominates(blk, st.blk): site = 'refill-arm-%d' % c
+                key = 'C08.R5:%s:%s:run-start-from-yytext_ptr#%s' % (skel(v), nm, site)
+                if 'MORELEN' in roles:
+                    rep.ok('C08.R5', '%s %s: %s = yytext_ptr + yy_more_len @%s' % (v.name, nm, L, st.line))
+                else:
+                    rep.fail('C08.R5', key, where(st), '%s derives the local %s from yytext_ptr without adding yy_more_len (YY_MORE_ADJ): after yymore() the run would start inside the kept text [variant %s]' % (nm, L, v.name), variant=v.describe())
+    return n
+
 # ---------------------------------------------------------------- driver
 
 def run(ctx):
     rep = ctx.rep
     vs = [v for v in ctx.variants() if c03.usable(v)]
     rep.require(len(vs) >= 60, 'only %d scanner variants compiled to IR' % len(vs))
-    tot = {'R1a': 0, 'R1b': 0, 'R1c': 0, 'R2': 0}
+    tot = {'R1a': 0, 'R1b': 0, 'R1c': 0, 'R2': 0, 'R4': 0, 'R5': 0}
     backends = set()
     for v in vs:
         sc = Scanner(v)
@@ -293,6 +388,8 @@ def run(ctx):
         tot['R1a'] += r1a(ctx, sc, lex)
         tot['R1b'] += r1b(ctx, sc)
         tot['R1c'] += r1c(ctx, sc)
+        tot['R4'] += r4(ctx, sc, lex)
+        tot['R5'] += r5(ctx, sc, lex)
         k = r2(ctx, sc)
         if k == 0: c03.vac(rep, v, 'C08.R2: no yyunput in this variant (noyyunput)')
         tot['R2'] += k
@@ -303,7 +400,10 @@ def run(ctx):
     rep.require(tot['R1b'] >= 8 * len(vs) - 16, 'C08.R1(b) matched %d instances, 8..10 per variant expected (2 per editing entry point)' % tot['R1b'])
     rep.require(tot['R1c'] >= 3 * len(vs), 'C08.R1(c) matched %d instances, 3 per variant expected' % tot['R1c'])
     rep.require(tot['R2'] >= len(vs) - 4, 'C08.R2 matched %d instances, one per variant with yyunput expected' % tot['R2'])
+    rep.require(tot['R4'] >= 3 * len(vs), 'C08.R4 matched %d instances, 2 arms in yylex + 2 in yyinput per variant expected' % tot['R4'])
+    rep.require(tot['R5'] >= 4 * (len(vs) // 3), 'C08.R5 matched %d instances, 4 per yymore variant expected' % tot['R5'])
     rep.floor('C08.R1', 1, 'see instances_R1a/R1b/R1c'); rep.floor('C08.R2', 1, 'see instances_R2')
+    rep.floor('C08.R4', 1, 'see instances_R4'); rep.floor('C08.R5', 1, 'see instances_R5')
     rep.undecided += ['yymore length arithmetic (yy_more_len / yy_more_offset) and "consumed exactly once"',
                       'the state after the user\'s yywrap() and on the end-of-file arm of yy_get_next_buffer (a path-insensitive join cannot see it)',
                       'the second expansion of yyless (section-3 code of the cpp skeleton): only instantiated when user code in section 3 calls yyless',
